@@ -59,31 +59,54 @@ def cli_literals():
     return out
 
 
+# what the round-1 model (Model/Engine.lean, Model/EnginePaths.lean) hard-codes; used when a literal cannot be read off the AST any more
+ROUND1 = {'bst_word': 'bst', 'bbl_suffix': '.bbl'}
+FALLBACKS = []    # (literal, reason) of the last engine_literals() call
+
+
 def engine_literals():
+    """the literals of `BibTeXEngine.format_from_files`.  A statement that no longer has the shape the literal is read from does NOT
+    stop the generator: the value of the round-1 model is kept and the fact is recorded (`FALLBACKS`, printed into the generated
+    file as a comment and as `Gen.engineLiteralsFromSource = false`), so that the correspondence check and the oracle still run
+    on the changed code and decide by BEHAVIOUR whether the change matters."""
     from pybtex.bibtex import BibTeXEngine
-    fn = _fn_ast(BibTeXEngine.format_from_files)
+    del FALLBACKS[:]
     out = {}
-    for node in ast.walk(fn):
+    try:
+        fn = _fn_ast(BibTeXEngine.format_from_files)
+        nodes = list(ast.walk(fn))
+    except Exception as e:  # noqa: source not available
+        nodes = []
+        FALLBACKS.append(('format_from_files', 'source not readable: %s' % type(e).__name__))
+    for node in nodes:
         if isinstance(node, ast.Assign) and isinstance(node.targets[0], ast.Name):
             t = node.targets[0].id
             if t == 'bst_filename':
                 v = node.value         # style + path.extsep + 'bst'
-                if not (isinstance(v, ast.BinOp) and isinstance(v.op, ast.Add) and ast.unparse(v.left) == 'style + path.extsep'):
-                    raise ValueError('C06 tablegen: bst_filename changed shape')
-                out['bst_word'] = _const(v.right, 'the bst word')
+                if (isinstance(v, ast.BinOp) and isinstance(v.op, ast.Add) and ast.unparse(v.left) == 'style + path.extsep'
+                        and isinstance(v.right, ast.Constant) and isinstance(v.right.value, str)):
+                    out['bst_word'] = v.right.value
+                else:
+                    FALLBACKS.append(('bst_word', 'bst_filename = %s' % ast.unparse(v)))
             if t == 'output_filename':
                 v = node.value         # output_filename + '.bbl'
-                if not (isinstance(v, ast.BinOp) and isinstance(v.op, ast.Add) and ast.unparse(v.left) == 'output_filename'):
-                    raise ValueError('C06 tablegen: the output suffix changed shape')
-                out['bbl_suffix'] = _const(v.right, 'the .bbl suffix')
-    if set(out) != {'bst_word', 'bbl_suffix'}:
-        raise ValueError('C06 tablegen: BibTeXEngine.format_from_files changed shape: %r' % sorted(out))
+                if (isinstance(v, ast.BinOp) and isinstance(v.op, ast.Add) and ast.unparse(v.left) == 'output_filename'
+                        and isinstance(v.right, ast.Constant) and isinstance(v.right.value, str)):
+                    out['bbl_suffix'] = v.right.value
+                else:
+                    FALLBACKS.append(('bbl_suffix', 'output_filename = %s' % ast.unparse(v)))
+    for k, v in ROUND1.items():
+        if k not in out:
+            if not any(f[0] == k for f in FALLBACKS):
+                FALLBACKS.append((k, 'no assignment found'))
+            out[k] = v
     sig = inspect.signature(BibTeXEngine.format_from_files)
     out['min_crossrefs'] = int(sig.parameters['min_crossrefs'].default)
     out['citations'] = list(sig.parameters['citations'].default)
     out['add_output_suffix'] = bool(sig.parameters['add_output_suffix'].default)
     if sig.parameters['output_filename'].default is not None:
         raise ValueError('C06 tablegen: the default of output_filename is not None any more')
+    out['fallbacks'] = list(FALLBACKS)
     return out
 
 
@@ -123,6 +146,12 @@ def gen_engine_consts():
     body += '/-- `BibTeXEngine.format_from_files`: `style + path.extsep + %r`, `output_filename + %r`, defaults of its signature -/\n' % (
         eng['bst_word'], eng['bbl_suffix'])
     body += 'def bstWord : Str := %s.toList\ndef bblSuffix : Str := %s.toList\n' % (S(eng['bst_word']), S(eng['bbl_suffix']))
+    for lit, why in eng['fallbacks']:
+        body += '-- FALLBACK %s: not readable from the source any more (%s); value of the round-1 model kept\n' % (
+            lit, why.replace('\n', ' ')[:200])
+    body += ('/-- `true` = both literals above were read from the statements `bst_filename = style + path.extsep + <lit>` / '
+             '`output_filename = output_filename + <lit>`; `false` = a statement changed shape and the round-1 value stands in -/\n')
+    body += 'def engineLiteralsFromSource : Bool := %s\n' % ('false' if eng['fallbacks'] else 'true')
     body += 'def defaultMinCrossrefs : Int := %d\ndef defaultCitations : List Str := %s\ndef defaultAddOutputSuffix : Bool := %s\n\n' % (
         eng['min_crossrefs'], tables.lean_strlist(eng['citations']), 'true' if eng['add_output_suffix'] else 'false')
     body += "/-- `find_plugin('pybtex.database.input', None).default_suffix` and the suffix of every registered reader -/\n"
